@@ -30,10 +30,34 @@ type simDisk struct {
 	stallNext int
 	// split: part of the bytes reach the medium before the write hangs, the rest after it.
 	split bool
+	// failNext (faulted runs): the next disk write fails (disk momentarily full, EIO): failKeep of its
+	// bytes (0, half or all but one) reach the medium and the call returns an error; later writes succeed
+	// again. failed records that this has happened.
+	failNext bool
+	failKeep int
+	failed   bool
 }
+
+var errSimDisk = fmt.Errorf("simulated disk: write error")
 
 func (d *simDisk) Write(p []byte) (int, error) {
 	d.inWrite = true
+	if d.failNext {
+		d.failNext = false
+		d.failed = true
+		k := []int{0, len(p) / 2, len(p) - 1}[d.failKeep]
+		if k < 0 {
+			k = 0
+		}
+		d.data = append(d.data, p[:k]...)
+		for i := 0; i < d.latency; i++ {
+			simrt.Gosched()
+		}
+		d.writes++
+		d.inWrite = false
+		simrt.Fault("disk-write-error")
+		return k, errSimDisk
+	}
 	k := 0
 	if d.split {
 		k = len(p) / 2
@@ -65,7 +89,7 @@ func init() {
 			return site
 		},
 		Real: []string{"asyncbufio.Writer (NewWriter, Write, WriteString, Flush, Close, writeLoop, flush)", "bufio.Writer"},
-		Stub: []string{"disk (in-memory io.Writer whose Write takes 0-3 scheduling points and, as a fault, hangs in the middle)"},
+		Stub: []string{"disk (in-memory io.Writer whose Write takes 0-3 scheduling points and, as faults, hangs in the middle or fails once keeping none, half or all but one of the bytes)"},
 	})
 }
 
@@ -121,7 +145,9 @@ func c07aBody(env *simrt.Env) {
 			}
 			simrt.Within(30*time.Second, "C07.flush-returns", "asyncbufio:flush-hangs", func() { w.Flush() })
 			env.Op("Flush")
-			if !bytes.Equal(disk.data, accepted[:before]) && !bytes.Equal(disk.data, accepted) {
+			// After a disk write error the accepted data cannot all be in the file; what remains demanded is
+			// that the file is still a prefix of the accepted stream (checked after every operation).
+			if !disk.failed && !bytes.Equal(disk.data, accepted[:before]) && !bytes.Equal(disk.data, accepted) {
 				simrt.Fail("C07.flush-complete", "asyncbufio:flush-incomplete", "after Flush the disk has %d bytes, accepted before the call: %d", len(disk.data), before)
 			}
 		case k < 11: // let time pass (ticker flushes)
@@ -132,9 +158,13 @@ func c07aBody(env *simrt.Env) {
 		default: // stall the writer goroutine
 			if env.Faulted() {
 				steps := 5 + simrt.DrawFault(60)
-				if simrt.DrawFault(2) == 0 {
+				if k := simrt.DrawFault(3); k == 0 {
 					simrt.Stall("writeLoop", steps)
 					env.Op("stall writeLoop for %d steps", steps)
+				} else if k == 2 {
+					disk.failNext = true
+					disk.failKeep = simrt.DrawFault(3)
+					env.Op("the next disk write will fail once (keeping %s of its bytes)", []string{"none", "half", "all but one"}[disk.failKeep])
 				} else {
 					disk.stallNext = steps
 					env.Op("the disk will hang for %d steps inside its next write", steps)
@@ -148,7 +178,11 @@ func c07aBody(env *simrt.Env) {
 	}
 	simrt.Within(30*time.Second, "C07.close-returns", "asyncbufio:close-hangs", func() { w.Close() })
 	env.Op("Close")
-	if !bytes.Equal(disk.data, accepted) {
+	checkPrefix("after Close")
+	if disk.failed {
+		simrt.Hit("closed-after-a-disk-write-error")
+	}
+	if !disk.failed && !bytes.Equal(disk.data, accepted) {
 		simrt.Fail("C07.close-complete", "asyncbufio:close-incomplete", "after Close the disk has %d bytes, accepted: %d", len(disk.data), len(accepted))
 	}
 	time.Sleep(time.Second) // the loop returns right after signalling completion; give it its turn
